@@ -48,6 +48,14 @@ func notPlain(v any, path string, seen map[uintptr]bool, depth int) string {
 		return ""
 	case []string:
 		return ""
+	case []map[string]any:
+		// a typed table of the caller's own document handed through as a value: the caller's data, plain
+		for i, e := range x {
+			if s := notPlain(e, fmt.Sprintf("%s[%d]", path, i), seen, depth+1); s != "" {
+				return s
+			}
+		}
+		return ""
 	case map[string]any:
 		if x != nil {
 			p := reflect.ValueOf(x).Pointer()
